@@ -556,12 +556,72 @@ class C09(TrainCase):
             'wherever the reference says the two must agree')
 
     def gen(self, rng: random.Random, tier: str) -> dict[str, Any]:
+        if tier == 'thorough' and rng.random() < 0.25:
+            # every step boundary of one drawn history as the crash point
+            from simkfac import gen
+
+            plan = gen.gen_train_plan(rng, tier=tier, restarts=0.0,
+                                      extras=0.4, scheduler=0.2, max_ops=6)
+            for op in plan['ops']:
+                op.pop('reset_after', None)
+            plan['enum_boundaries'] = {
+                'compute_inverses': rng.random() < 0.7,
+                'ranks': rng.choice([[0], None])}
+            return plan
         while True:
             plan = super().gen(rng, tier)
             if any(o['op'] == 'restart' for o in plan['ops']):
                 return plan
 
     def evaluate(self, plan: dict[str, Any], tapes: Any = None) -> Outcome:
+        if plan.get('enum_boundaries'):
+            return self._evaluate_boundaries(plan)
+        return self._evaluate_one(plan, tapes)
+
+    def _evaluate_boundaries(self, plan: dict[str, Any]) -> Outcome:
+        from simkfac.gen import Mirror
+
+        oc = Outcome()
+        eb = plan['enum_boundaries']
+        ops = plan['ops']
+        n_train = 0
+        for b in range(1, len(ops) + 1):
+            if ops[b - 1]['op'] != 'train':
+                continue
+            n_train += 1
+            m = Mirror(plan['hps'], plan.get('scheduler') or {})
+            for op in ops[:b]:
+                if op['op'] == 'train':
+                    m.ref.steps += 1
+                elif op['op'] == 'sched' and plan.get('scheduler'):
+                    m.ref.sched_step(plan['scheduler'], op.get('step'))
+            ci = eb['compute_inverses'] or not m.ref.is_inv_step()
+            sub = {k: v for k, v in plan.items() if k != 'enum_boundaries'}
+            sub['ops'] = ops[:b] + [
+                {'op': 'save', 'ranks': eb['ranks'],
+                 'include_factors': True},
+                {'op': 'restart', 'compute_inverses': ci},
+            ] + (ops[b:] or [{'op': 'train', 'it': 900 + b}])
+            o = self._evaluate_one(sub, None)
+            oc.violations += [dict(v, boundary=b) for v in o.violations]
+            oc.stats.update(o.stats)
+            oc.faults.update(o.faults)
+            oc.probes.update(o.probes)
+            oc.n_sims += o.n_sims
+            oc.sim_time += o.sim_time
+            oc.actions += o.actions
+            oc.multi += o.multi
+            oc.event_digests += o.event_digests
+            oc.value_digests += o.value_digests
+            oc.shapes += o.shapes
+            oc.nontrivial += o.nontrivial
+            oc.harness_errors += o.harness_errors
+        oc.stats['histories_with_every_boundary_enumerated'] += 1
+        oc.stats['boundaries_enumerated'] += n_train
+        return oc
+
+    def _evaluate_one(self, plan: dict[str, Any],
+                      tapes: Any = None) -> Outcome:
         from simkfac import oracle_train
         from simkfac.train import split_incarnations
 
